@@ -163,7 +163,10 @@ def r1_commit_last(chk, put):
     # duplicate / read-only guards exist and raise
     src = chk.prog.func(f"{UKV}:UKVFile.put").node
     guards = [s for s in ast.walk(src) if isinstance(s, ast.If) and any(isinstance(b, ast.Raise) for b in s.body)]
-    has_dup = any("_toc" in norm(g.test) and "key" in names_in(g.test) for g in guards)
+    from .ukvscan import key_bytes_name
+
+    kname = key_bytes_name(put)[0]
+    has_dup = any("_toc" in norm(g.test) and kname in names_in(g.test) for g in guards)
     has_ro = any("writable" in norm(g.test) or "mode" in norm(g.test) for g in guards)
     chk.decide(has_dup and has_ro, "C02.R1", f"{put.key}:guards", put.where(),
                "duplicate-key and non-writable guards raise before anything else",
@@ -276,12 +279,54 @@ def r3_file_header(chk, wh, rh):
     chk.require(len(tg) == 3, "read_header unpacks %d names" % len(tg))
     chk.decide(tg[0] == "self.h1", "C02.R3", f"{rh.key}:unpacked-h1", rh.where(asg[0]), "first field -> self.h1",
                f"first header field is unpacked into {tg[0]}")
-    reads = [s for s in ast.walk(rh.node) if isinstance(s, ast.Assign) and has_call(s.value, {"self._stream.read"})]
-    reads.sort(key=lambda s: s.lineno)
-    got = [(norm(s.targets[0]), norm(calls_named(s.value, {"self._stream.read"})[0].args[0])) for s in reads]
-    want = [("self.h2", tg[1]), ("self.b0", tg[2])]
-    chk.decide(got == want, "C02.R3", f"{rh.key}:payload-reads", rh.where(), f"reads {got}",
-               f"read_header reads {got}; the writer wrote h2 ({tg[1]} bytes) then b0 ({tg[2]} bytes)")
+    # which bytes of the payload (what follows the fixed header) end up in h2 and in b0: byte ranges on affine offsets, whatever
+    # the number of reads and however a buffer is cut (`read(h2len)`, `read(b0len)` - or one read and two slices)
+    from ..affine import Aff
+
+    def aff(e):
+        if isinstance(e, ast.Constant) and isinstance(e.value, int):
+            return Aff.const(e.value)
+        if isinstance(e, ast.Name):
+            return Aff.sym(e.id)
+        if isinstance(e, ast.BinOp) and isinstance(e.op, (ast.Add, ast.Sub)):
+            a_, b_ = aff(e.left), aff(e.right)
+            return a_ + b_ if isinstance(e.op, ast.Add) else a_ - b_
+        raise AnalysisError(f"read_header: `{short(e, 30)}` is not an offset the analysis can follow")
+
+    off = Aff.const(0)
+    rng, negzero = {}, []
+    started = False
+    for st_ in rh.node.body:
+        if st_ is asg[0]:
+            started = True
+            continue
+        if not started or not isinstance(st_, ast.Assign) or len(st_.targets) != 1:
+            continue
+        tg_, vs_ = st_.targets[0], st_.value
+        pairs = list(zip(tg_.elts, vs_.elts)) if isinstance(tg_, ast.Tuple) and isinstance(vs_, ast.Tuple) and len(tg_.elts) == len(vs_.elts) else [(tg_, vs_)]
+        for t_, v_ in pairs:
+            if isinstance(v_, ast.Call) and norm(v_.func) == "self._stream.read" and len(v_.args) == 1:
+                n_ = aff(v_.args[0])
+                rng[norm(t_)] = (off, off + n_)
+                off = off + n_
+            elif isinstance(v_, ast.Subscript) and isinstance(v_.slice, ast.Slice) and norm(v_.value) in rng and v_.slice.step is None:
+                b0_, b1_ = rng[norm(v_.value)]
+                def edge(e, default):
+                    if e is None:
+                        return default
+                    if isinstance(e, ast.UnaryOp) and isinstance(e.op, ast.USub):
+                        negzero.append(v_)   # x[-n:] is the whole of x when n == 0
+                        return b1_ - aff(e.operand)
+                    return b0_ + aff(e)
+                rng[norm(t_)] = (edge(v_.slice.lower, b0_), edge(v_.slice.upper, b1_))
+    L1, L2 = Aff.sym(tg[1]), Aff.sym(tg[2])
+    got = {k_: rng.get(k_) for k_ in ("self.h2", "self.b0")}
+    okp = got["self.h2"] is not None and got["self.b0"] is not None and (got["self.h2"][0]).is_zero() and (got["self.h2"][1] - L1).is_zero() \
+        and (got["self.b0"][0] - L1).is_zero() and (got["self.b0"][1] - (L1 + L2)).is_zero() and not negzero
+    shown = {k_: (f"[{v_[0]}, {v_[1]})" if v_ else None) for k_, v_ in got.items()}
+    chk.decide(okp, "C02.R3", f"{rh.key}:payload-reads", rh.where(), f"h2 = payload bytes {shown['self.h2']}, b0 = {shown['self.b0']}",
+               (f"`{short(negzero[0], 30)}` counts from the end with a length that may be 0: `x[-0:]` is the whole buffer, so an empty block reads back as everything before it; " if negzero else "")
+               + f"read_header takes h2 from payload bytes {shown['self.h2']} and b0 from {shown['self.b0']}; the writer wrote h2 ({tg[1]} bytes) then b0 ({tg[2]} bytes)")
     # _bof
     bof = chk.prog.func(f"{UKV}:UKVFile._bof", "getter")
     rets = [s for s in ast.walk(bof.node) if isinstance(s, ast.Return)]
@@ -427,8 +472,25 @@ def r4_block_header(chk, put, mapb, get):
                "C02.R4", f"{get.key}:seek-read", get.where(), f"seek({norm(sk[0].args[0])}); read({norm(rd[0].args[0])})",
                f"get seeks to {norm(sk[0].args[0])} and reads {norm(rd[0].args[0])}; the value is record_len bytes at pos_v")
     idx = [s for s in ast.walk(get.node) if isinstance(s, ast.Subscript) and norm(s.value) == "self._toc"]
-    chk.decide(bool(idx) and all(norm(s.slice) == "key" for s in idx), "C02.R4", f"{get.key}:index-key", get.where(),
-               "looks up the requested key", "get does not look up the requested key in _toc")
+    # the requested key, converted exactly as put converts the key it stores (if it converts it at all)
+    from .ukvscan import key_bytes_name
+
+    kname, kdef = key_bytes_name(put)
+    gpar = get.params()[1]
+    want = {gpar}
+    if kdef is not None:
+        class _S(ast.NodeTransformer):
+            def visit_Name(self, n):
+                return ast.copy_location(ast.Name(gpar, n.ctx), n) if n.id == put.params()[1] else n
+        import copy as _copy
+
+        want = {norm(_S().visit(_copy.deepcopy(kdef)))}
+    from ..canon import Env as _Env
+
+    genv = _Env(get.node)
+    chk.decide(bool(idx) and all(norm(genv.expand(s.slice, keep={gpar})) in want for s in idx), "C02.R4", f"{get.key}:index-key", get.where(),
+               "looks up the requested key" + ("" if kdef is None else f" converted as put converts it (`{short(kdef, 40)}`)"), "get does not look up the requested key in _toc"
+               + ("" if kdef is None else f" the way put stores it (`{short(kdef, 40)}`)"))
 
 
 # ----------------------------------------------------------------------------
@@ -563,7 +625,10 @@ def r6_append_only(chk, put, wh, mapb):
     st = [s for s in walk_no_nested(put.node) if isinstance(s, ast.Assign) and "self._toc[]" in stored_paths(s)]
     chk.require(len(st) >= 1, "put: no index store")
     subs = [t for s_ in st for t in s_.targets if isinstance(t, ast.Subscript)]
-    chk.decide(all(norm(sub.slice) == "key" for sub in subs), "C02.R6", f"{put.key}:index-store-key", put.where(st[0]), "indexes under the put key",
+    from .ukvscan import key_bytes_name
+
+    kname_ = key_bytes_name(put)[0]
+    chk.decide(all(norm(sub.slice) == kname_ for sub in subs), "C02.R6", f"{put.key}:index-store-key", put.where(st[0]), "indexes under the put key",
                f"put stores the record under {[norm(sub.slice) for sub in subs]}, not under the key")
 
 
@@ -595,6 +660,20 @@ def r7_flush_progress(chk):
         for w in wn:
             # (a) the item was dequeued before the write in this iteration: every path from the loop header to the write passes a remover
             loops = [n for n in cfg.nodes if n.kind in ("test", "for") and isinstance(n.ast, (ast.While, ast.For)) and any(x is w.ast for x in ast.walk(n.ast))]
+            # a clean-up loop `for _ in range(n): queue.popleft()` removes at least one item when n counts the attempts: n is stepped
+            # on every way from the loop header to the write
+            if loops:
+                steps = {}
+                for n in cfg.nodes:
+                    if n.kind == "stmt" and isinstance(n.ast, ast.AugAssign) and isinstance(n.ast.op, ast.Add) and isinstance(n.ast.target, ast.Name) \
+                            and isinstance(n.ast.value, ast.Constant) and isinstance(n.ast.value.value, int) and n.ast.value.value > 0:
+                        steps.setdefault(n.ast.target.id, set()).add(n.id)
+                counted = {nm for nm, ids in steps.items() if cfg.path(cfg.succs(loops[-1].id, {"true"}), {w.id}, avoid=ids) is None}
+                for n in cfg.nodes:
+                    if n.kind == "for" and isinstance(n.ast.iter, ast.Call) and call_name(n.ast.iter) == "range" and len(n.ast.iter.args) == 1 \
+                            and isinstance(n.ast.iter.args[0], ast.Name) and n.ast.iter.args[0].id in counted \
+                            and any(isinstance(c, ast.Call) and (call_name(c) or "") in ("self._write_queue.popleft", "self._write_queue.pop") for b in n.ast.body for c in ast.walk(b)):
+                        removers = removers | {n.id}
             before = bool(loops) and cfg.path(cfg.succs(loops[-1].id, {"true"}), {w.id}, avoid=removers) is None
             # (b) or the exceptional exit of the write passes a remover
             after = cfg.path(cfg.succs(w.id, {"exc"}), {cfg.raise_exit}, avoid=removers) is None
